@@ -17,8 +17,16 @@ ASSUMPTIONS = ["integer item values below 2^53", "hand-over discipline as stated
 ALIAS = {"agree": 0, "disagree": 0, "examples": []}
 
 
+_n = [0]
+
+
 def U(ops, family, cmp="live", disciplined=True):
-    return {"kind": "binner_ops", "params": {"ops": ops}, "cmp": cmp, "family": family, "disciplined": disciplined}
+    # the items handed to the managers are integers, equal-length tuples or strings, in rotation (the model only sees their ids)
+    _n[0] += 1
+    p = {"ops": ops}
+    if _n[0] % 3:
+        p["names"] = ["tuple", "str"][_n[0] % 3 - 1]
+    return {"kind": "binner_ops", "params": p, "cmp": cmp, "family": family, "disciplined": disciplined}
 
 
 class Sim:
